@@ -327,7 +327,30 @@ macro_rules! ints {
     }};
 }
 
+/// directed case (finding F4): a RangeInclusive that was iterated to exhaustion carries a third component, the private
+/// `exhausted` flag, which `==` compares and `is_empty` / `contains` observe -- it is not on the wire
+fn range_inclusive_exhausted() {
+    let mut a = 3u32..=3;
+    let _ = a.next();
+    rt("RangeInclusive<u32> iterated to exhaustion (3..=3 after one next())", &a);
+    let mut b = -2i64..=0;
+    while b.next().is_some() {}
+    rt("RangeInclusive<i64> iterated to exhaustion (-2..=0 drained)", &b);
+    let mut c = 'a'..='a';
+    let _ = c.next_back();
+    rt("RangeInclusive<char> exhausted from the back", &c);
+}
+
 fn main() {
+    {
+        let args: Vec<String> = std::env::args().collect();
+        if let Some(i) = args.iter().position(|a| a == "--only") {
+            match args.get(i + 1).map(String::as_str) {
+                Some("range_inclusive_exhausted") => { range_inclusive_exhausted(); report_none(unsafe { COUNT }); }
+                other => panic!("unknown --only case {other:?}"),
+            }
+        }
+    }
     let mut rng = Rng(seed_from_args().wrapping_add(0x9E3779B97F4A7C15));
     // exhaustive 16 bit
     for v in 0..=u16::MAX {
